@@ -1,6 +1,7 @@
 package main
 
 import (
+	"fmt"
 	"go/constant"
 	"go/token"
 	"go/types"
@@ -70,9 +71,28 @@ func fnFullName(f *ssa.Function) string {
 		f = o
 	}
 	if obj, ok := f.Object().(*types.Func); ok && obj != nil {
-		return shortName(obj.Origin().FullName())
+		return stripTypeArgs(shortName(obj.Origin().FullName()))
 	}
-	return shortName(f.String())
+	return stripTypeArgs(shortName(f.String()))
+}
+
+// stripTypeArgs removes "[...]" type parameter/argument lists so generic methods have one name.
+func stripTypeArgs(s string) string {
+	var b strings.Builder
+	depth := 0
+	for _, r := range s {
+		switch {
+		case r == '[':
+			depth++
+		case r == ']':
+			if depth > 0 {
+				depth--
+			}
+		case depth == 0:
+			b.WriteRune(r)
+		}
+	}
+	return b.String()
 }
 
 // staticCallee returns the mosdns-or-other *ssa.Function called, or nil.
@@ -411,4 +431,91 @@ func chanOfRecv(v ssa.Value) (ssa.Value, bool) {
 		}
 	}
 	return nil, false
+}
+
+// exprStr renders a pure SSA expression position-independently; structurally equal expressions give
+// equal strings (go/ssa does no CSE). Loads of fields print as the field key applied to the base.
+func exprStr(v ssa.Value) string { return exprStrD(v, 0) }
+
+func exprStrD(v ssa.Value, d int) string {
+	if v == nil {
+		return "<nil>"
+	}
+	if d > 8 {
+		return "…"
+	}
+	switch x := v.(type) {
+	case *ssa.Const:
+		if x.Value == nil {
+			return "nil"
+		}
+		return x.Value.ExactString()
+	case *ssa.Parameter:
+		return "$" + x.Name()
+	case *ssa.FreeVar:
+		return "$fv:" + x.Name()
+	case *ssa.Global:
+		return shortName(x.Pkg.Pkg.Path()) + "." + x.Name()
+	case *ssa.Function:
+		return fnFullName(x)
+	case *ssa.Alloc:
+		if x.Comment != "" {
+			return "&" + x.Comment
+		}
+		return "&alloc"
+	case *ssa.FieldAddr:
+		st := structOf(x.X.Type())
+		return "&" + exprStrD(x.X, d+1) + "." + st.Field(x.Field).Name()
+	case *ssa.Field:
+		st := structOf(x.X.Type())
+		return exprStrD(x.X, d+1) + "." + st.Field(x.Field).Name()
+	case *ssa.IndexAddr:
+		return "&" + exprStrD(x.X, d+1) + "[" + exprStrD(x.Index, d+1) + "]"
+	case *ssa.Index:
+		return exprStrD(x.X, d+1) + "[" + exprStrD(x.Index, d+1) + "]"
+	case *ssa.Lookup:
+		return exprStrD(x.X, d+1) + "[" + exprStrD(x.Index, d+1) + "]"
+	case *ssa.UnOp:
+		if x.Op == token.MUL {
+			s := exprStrD(x.X, d+1)
+			if strings.HasPrefix(s, "&") {
+				return s[1:]
+			}
+			return "*" + s
+		}
+		return x.Op.String() + exprStrD(x.X, d+1)
+	case *ssa.BinOp:
+		return "(" + exprStrD(x.X, d+1) + " " + x.Op.String() + " " + exprStrD(x.Y, d+1) + ")"
+	case *ssa.Convert:
+		return shortName(x.Type().String()) + "(" + exprStrD(x.X, d+1) + ")"
+	case *ssa.ChangeType:
+		return exprStrD(x.X, d+1)
+	case *ssa.ChangeInterface:
+		return exprStrD(x.X, d+1)
+	case *ssa.MakeInterface:
+		return exprStrD(x.X, d+1)
+	case *ssa.Slice:
+		s := exprStrD(x.X, d+1) + "["
+		if x.Low != nil {
+			s += exprStrD(x.Low, d+1)
+		}
+		s += ":"
+		if x.High != nil {
+			s += exprStrD(x.High, d+1)
+		}
+		return s + "]"
+	case *ssa.Extract:
+		return exprStrD(x.Tuple, d+1) + "#" + fmt.Sprint(x.Index)
+	case *ssa.Call:
+		var as []string
+		for _, a := range callArgs(x) {
+			as = append(as, exprStrD(a, d+1))
+		}
+		return callName(x) + "(" + strings.Join(as, ", ") + ")"
+	case *ssa.Phi:
+		return "phi:" + x.Name() + "@" + fmt.Sprint(x.Block().Index)
+	case *ssa.TypeAssert:
+		return exprStrD(x.X, d+1) + ".(" + shortName(x.AssertedType.String()) + ")"
+	}
+	return fmt.Sprintf("%T:%s", v, v.Name())
 }
